@@ -184,7 +184,8 @@ def r2_propagation(ctx):
                         errv = vs.index("Err") if vs and "Err" in vs else None
                     else:
                         errv = 1  # Result::Err / ControlFlow::Break
-                    if e[3] != errv:
+                    # the error branch: the Err value itself, or the otherwise edge of a match that does not list Err
+                    if not (e[3] == errv or (e[3] == "else" and errv is not None and errv not in e[4])):
                         continue
                     n += 1
                     site = "%s:%s:Err" % (name, callee)
